@@ -39,6 +39,7 @@ func networkCase(c *core.Case) {
 	val0 := chainkit.ValAddrOf(0)
 	w := txgen.NewWorld(r, txgen.WorldOpts{Galaxias: gal, NEOA: 3, NContracts: 3, FixedCoinbase: &val0, RichEOAs: true, NoCollisions: true})
 	fixedContracts(w)
+	directedContracts(w)
 	perm := r.Perm(len(all))
 	cfgName := make([]string, n)
 	net, err := netsim.NewNet(netsim.NetOpts{N: n, Powers: powers,
@@ -72,7 +73,7 @@ func networkCase(c *core.Case) {
 		return map[string]interface{}{"validators": n, "powers": powers, "cache_configs": cfgName, "galaxias": gal, "heights": net.Heights(), "schedule_tail": net.TailSched(60)}
 	}
 	for h := 1; h <= heights; h++ {
-		specs := planTxs(r, w, net.Nodes[0].BC, uint64(h), nil)
+		specs := planTxs(r, w, net.Nodes[0].BC, uint64(h), nil, planOpts{Random: -1, Directed: true, PoolGas: 3000000})
 		accepted := 0
 		for _, s := range specs {
 			tx := s.Sign(w)
